@@ -267,6 +267,28 @@ def _key_arrays(cu, s):
     return ka
 
 
+def scalar_lookup(e, select, keys, db=None, args=None):
+    """`(SELECT <col> FROM <table> WHERE <key column> = ?)` as a value: the column at that key, NULL when the row
+    does not exist."""
+    if e[0] != "scalar_select":
+        return None
+    c = cur()
+    cu = c.data.get("cursor")
+    db = db or cu.db
+    args = args if args is not None else cu.args
+    inner = _Select(sqlfront.show(e[1]))
+    if len(inner.aliases) != 1 or len(inner.outputs) != 1 or inner.where is None:
+        return None
+    (alias, table), = inner.aliases.items()
+    w = inner.where
+    if not (w[0] == "cmp" and w[1] == "=" and w[2][0] == "col" and w[2][2] == KEYS[table] and w[3][0] == "param"):
+        return None
+    key = _param_fn(args)(w[3][1])
+    tr = inner.translator(db, {alias: key.t}, args, subquery=lambda e2: None)
+    v = tr.ev(inner.outputs[0])
+    return sqlfront.Val(v.t, v.kind, tm.Or(v.null, key.null, tm.Not(exists(db, table, key.t))))
+
+
 def query(prefix, rowspec, witness=None, none_keys=None, always_row=False, complete_keys=None, subquery=None):
     """A DbStub query entry whose rows carry the row fact.  `witness(keys, args)` is called with the keys
     of each returned row (to bind them to ghost names); `none_keys(args)` lists key assignments for which
@@ -362,6 +384,14 @@ def _trigger_writes(table, event, set_cols):
     return out
 
 
+def _pats(v: sqlfront.Val):
+    """Trigger terms of a quantified column fact: the value application and (if nullable) the NULL flag."""
+    pats = [[v.t]]
+    if not v.null.is_lit:
+        pats.append([v.null])
+    return pats
+
+
 def _bound_key(name="k"):
     return tm.Var(cur().fresh_name(name + "!bound"), INT)
 
@@ -404,6 +434,9 @@ def _ite_val(c, a: sqlfront.Val, b: sqlfront.Val, like: sqlfront.Val) -> sqlfron
     return sqlfront.Val(tm.Ite(c, as_kind(a), as_kind(b)), like.kind, tm.Ite(c, a.null, b.null))
 
 
+# tables that hold data about a node but are not part of the view (no invariant of the view reads them)
+SATELLITES = {"step_hash", "step_outcome", "step_resource", "step_subprocess"}
+
 CLOSURE_READERS = []  # (normalised statement text, reader(db, old, args) -> facts): recursive statements (assumed)
 
 
@@ -418,6 +451,14 @@ def read_write(db, old, sql, args):
     toks = [t for t in sqlfront.tokenize(sql) if t.kind != "eof"]
     try:
         head = toks[0].up
+        # a statement on a table that is not part of the view changes the view only through triggers
+        tpos = {"UPDATE": 1, "INSERT": 2, "DELETE": 2}.get(head)
+        if tpos is not None and len(toks) > tpos and toks[tpos - 1].up in ("UPDATE", "INTO", "FROM"):
+            tname = sqlfront._unquote(toks[tpos].text)
+            if tname not in KEYS and tname in SATELLITES:
+                for wt, wc in _trigger_writes(tname, head, None):
+                    db.touch(wt, wc)
+                return True
         if head == "UPDATE":
             return _read_update(db, old, toks, args)
         if head == "INSERT":
@@ -427,6 +468,21 @@ def read_write(db, old, sql, args):
         raise sqlfront.SQLError(f"statement {head} is not read")
     except sqlfront.SQLError as e:
         c.event("sql.unread", sql=sql, reason=str(e))
+        # unread, but the target table is known: its rows and columns become unknown, together with what the triggers
+        # on its events may write; every other table keeps its symbols
+        m = re.match(r"(?i)^(?:UPDATE|INSERT (?:OR \w+ )?INTO|DELETE FROM)\s+(\w+)", norm)
+        if m and m.group(1) in KEYS and "WITH" not in norm.upper().split()[:1]:
+            t = m.group(1)
+            for cn in table_columns(t):
+                db.touch(t, cn)
+            db.touch(t, "exists")
+            for ev in ("INSERT", "UPDATE", "DELETE"):
+                for wt, wc in _trigger_writes(t, ev, None):
+                    db.touch(wt, wc)
+            for child in CASCADES.get(t, []):
+                if child in KEYS:
+                    db.touch(child, "exists")
+            return True
         db.full = db.version
         return True
 
@@ -487,7 +543,7 @@ def _read_update(db, old, toks, args):
     for cname, v in vals:
         newv = column(db, table, cname, k)
         oldv = column(old, table, cname, k)
-        facts.append(tm.ForAll([(k.s, INT)], _same(newv, _ite_val(cond, v, oldv, newv)), patterns=[[newv.t]] if not newv.t.is_lit else None))
+        facts.append(tm.ForAll([(k.s, INT)], _same(newv, _ite_val(cond, v, oldv, newv)), patterns=_pats(newv)))
     return sym.wrap_bool(tm.And(*facts))
 
 
@@ -525,7 +581,7 @@ def _read_insert(db, old, toks, args):
         newkey = vals[keycol].t
     else:
         newkey = c.fresh(c.fresh_name(f"new.{table}.{keycol}"), INT)
-        c.pc.append(tm.Not(exists(old, table, newkey)))  # an unused rowid
+        c.pc.append(tm.And(tm.Not(exists(old, table, newkey)), tm.Ge(newkey, tm.mk_int(1))))  # an unused, positive rowid
     db.last_insert_key = newkey
     allcols = [cn for cn in table_columns(table) if cn != keycol]
     for cn in allcols:
@@ -542,7 +598,7 @@ def _read_insert(db, old, toks, args):
             body = _same(newv, _ite_val(tm.Eq(k, newkey), vals[cn], oldv, newv))
         else:
             body = tm.Implies(tm.Ne(k, newkey), _same(newv, oldv))
-        facts.append(tm.ForAll([(k.s, INT)], body, patterns=[[newv.t]]))
+        facts.append(tm.ForAll([(k.s, INT)], body, patterns=_pats(newv)))
     return sym.wrap_bool(tm.And(*facts))
 
 
